@@ -1,0 +1,28 @@
+//go:build verif
+
+package main
+
+import (
+	"bufio"
+	"encoding/hex"
+	"fmt"
+	"strings"
+
+	"github.com/goccmack/gocc/internal/frontend/token"
+)
+
+func init() { commands["sdt"] = cmdSdt }
+
+// cmdSdt: per hex-encoded action literal ("<< ... >>") prints Token.SDTVal() (hex).
+func cmdSdt(in *bufio.Reader, out *bufio.Writer, _ []string) {
+	sc := bufio.NewScanner(in)
+	sc.Buffer(make([]byte, 1<<20), 1<<26)
+	for sc.Scan() {
+		lit, err := hex.DecodeString(strings.TrimSpace(sc.Text()))
+		if err != nil {
+			panic(err)
+		}
+		t := &token.Token{Lit: lit}
+		fmt.Fprintf(out, "%s\n", hex.EncodeToString([]byte(t.SDTVal())))
+	}
+}
